@@ -1,0 +1,266 @@
+//! Verification facade, compiled only with `--features verif`.
+//!
+//! Everything here either re-exports items of private modules or replaces a piece of the
+//! *outside world* (process execution, the progress sink) so that an external harness can
+//! drive the real code deterministically.  Nothing here is referenced unless the feature
+//! is on, and no existing line of n2 is changed by it.
+
+pub use crate::canon::{canonicalize_path, to_owned_canon_path};
+pub use crate::db::{open as db_open, Writer as DbWriter};
+pub use crate::densemap::{DenseMap, Index as DenseIndex};
+pub use crate::graph::{
+    Build, BuildId, BuildIns, BuildOuts, File, FileId, FileLoc, FileState, Graph, GraphFiles,
+    Hashes, MTime, RspFile,
+};
+pub use crate::hash::{explain_hash_build, hash_build, BuildHash};
+pub use crate::load::{read as load_read, State as LoadState};
+pub use crate::process::Termination;
+pub use crate::progress::Progress;
+pub use crate::progress_fancy::verif_hooks::{progress_bar, task_message, truncate};
+pub use crate::run::verif_build;
+pub use crate::smallmap::SmallMap;
+pub use crate::task::verif_hooks::{extract_showincludes, find_last_line, read_depfile};
+pub use crate::task::TaskResult;
+pub use crate::work::{BuildState, Options, StateCounts};
+
+use std::sync::{Condvar, Mutex};
+
+/// Parse depfile text (without trailing nul) with the real parser.
+/// Ok: (target, deps) in map order.  Err: the formatted parse error.
+pub fn depfile_parse(text: &[u8]) -> Result<Vec<(String, Vec<String>)>, String> {
+    let mut buf = text.to_vec();
+    buf.push(0);
+    let mut scanner = crate::scanner::Scanner::new(&buf);
+    match crate::depfile::parse(&mut scanner) {
+        Ok(map) => Ok(map
+            .iter()
+            .map(|(k, v)| (k.to_string(), v.iter().map(|s| s.to_string()).collect()))
+            .collect()),
+        Err(err) => Err(scanner.format_parse_error(std::path::Path::new("depfile"), err)),
+    }
+}
+
+// ---------------------------------------------------------------------------------------
+// Event log: state transitions (from BuildStates::set) and whatever the harness's Progress
+// implementation wants to interleave with them.
+
+#[derive(Clone, Debug)]
+pub enum Event {
+    Set {
+        id: usize,
+        prev: BuildState,
+        new: BuildState,
+        counts: [usize; 6],
+        pending: usize,
+    },
+    Note(String),
+}
+
+static EVENTS: Mutex<Vec<Event>> = Mutex::new(Vec::new());
+
+pub fn log_event(e: Event) {
+    EVENTS.lock().unwrap_or_else(|e| e.into_inner()).push(e);
+}
+
+pub fn take_events() -> Vec<Event> {
+    std::mem::take(&mut *EVENTS.lock().unwrap_or_else(|e| e.into_inner()))
+}
+
+pub fn counts_array(c: &StateCounts) -> [usize; 6] {
+    [
+        c.get(BuildState::Want),
+        c.get(BuildState::Ready),
+        c.get(BuildState::Queued),
+        c.get(BuildState::Running),
+        c.get(BuildState::Done),
+        c.get(BuildState::Failed),
+    ]
+}
+
+pub(crate) fn on_set(
+    id: BuildId,
+    prev: BuildState,
+    new: BuildState,
+    counts: &StateCounts,
+    pending: usize,
+) {
+    log_event(Event::Set {
+        id: DenseIndex::index(&id),
+        prev,
+        new,
+        counts: counts_array(counts),
+        pending,
+    });
+}
+
+// ---------------------------------------------------------------------------------------
+// Progress override.
+
+static PROGRESS: Mutex<Option<&'static (dyn Progress + Sync)>> = Mutex::new(None);
+
+pub fn set_progress_override(p: Option<&'static (dyn Progress + Sync)>) {
+    *PROGRESS.lock().unwrap_or_else(|e| e.into_inner()) = p;
+}
+
+pub(crate) fn progress_override() -> Option<&'static dyn Progress> {
+    let p = *PROGRESS.lock().unwrap_or_else(|e| e.into_inner());
+    p.map(|p| p as &'static dyn Progress)
+}
+
+// ---------------------------------------------------------------------------------------
+// Scripted executor.  Replaces only the process spawn: every task still runs on its real
+// thread through the real `run_task`; the thread blocks in `exec_hook` until the harness,
+// called from the top of `Runner::wait`, picks it to finish.
+
+/// What the harness decides for one `Runner::wait`.
+pub enum Release {
+    /// Finish pending task `index` (index into the sorted list given to `choose`).
+    Finish {
+        index: usize,
+        termination: Termination,
+        /// Output chunks, delivered through the real output callback one by one.
+        output: Vec<Vec<u8>>,
+    },
+    /// Abandon the whole invocation (models the n2 process being killed): unwinds out of
+    /// `Runner::wait` with a `VerifAbort` payload.
+    Abort,
+}
+
+/// Panic payload used by `Release::Abort`.
+pub struct VerifAbort;
+
+pub trait Executor: Send {
+    /// `pending`: command lines of all started, unfinished tasks, sorted.
+    fn choose(&mut self, pending: &[String]) -> Release;
+}
+
+struct Pending {
+    ticket: u64,
+    cmdline: String,
+    release: Option<(Termination, Vec<Vec<u8>>)>,
+    abandoned: bool,
+}
+
+#[derive(Default)]
+struct ExecState {
+    executor: Option<Box<dyn Executor>>,
+    pending: Vec<Pending>,
+    next_ticket: u64,
+}
+
+static EXEC: Mutex<ExecState> = Mutex::new(ExecState {
+    executor: None,
+    pending: Vec::new(),
+    next_ticket: 0,
+});
+static EXEC_CV: Condvar = Condvar::new();
+
+pub fn set_executor(e: Option<Box<dyn Executor>>) {
+    let mut st = EXEC.lock().unwrap_or_else(|e| e.into_inner());
+    st.executor = e;
+    for p in st.pending.iter_mut() {
+        p.abandoned = true;
+    }
+    EXEC_CV.notify_all();
+}
+
+pub(crate) fn exec_hook(
+    cmdline: &str,
+    output_cb: &mut dyn FnMut(&[u8]),
+) -> Option<anyhow::Result<Termination>> {
+    let mut st = EXEC.lock().unwrap_or_else(|e| e.into_inner());
+    if st.executor.is_none() {
+        return None;
+    }
+    let ticket = st.next_ticket;
+    st.next_ticket += 1;
+    st.pending.push(Pending {
+        ticket,
+        cmdline: cmdline.to_owned(),
+        release: None,
+        abandoned: false,
+    });
+    EXEC_CV.notify_all();
+    loop {
+        let idx = st.pending.iter().position(|p| p.ticket == ticket).unwrap();
+        if st.pending[idx].abandoned {
+            st.pending.remove(idx);
+            return Some(Err(anyhow::anyhow!("verif: invocation abandoned")));
+        }
+        if st.pending[idx].release.is_some() {
+            let p = st.pending.remove(idx);
+            drop(st);
+            let (termination, output) = p.release.unwrap();
+            for chunk in output {
+                output_cb(&chunk);
+            }
+            return Some(Ok(termination));
+        }
+        st = EXEC_CV.wait(st).unwrap_or_else(|e| e.into_inner());
+    }
+}
+
+pub(crate) fn wait_hook(running: usize) {
+    let mut st = EXEC.lock().unwrap_or_else(|e| e.into_inner());
+    if st.executor.is_none() {
+        return;
+    }
+    // Wait until every started task has checked in (bounded, in case a task failed before
+    // reaching run_command, e.g. on an rspfile write error).
+    let deadline = std::time::Instant::now() + std::time::Duration::from_secs(5);
+    loop {
+        let waiting = st
+            .pending
+            .iter()
+            .filter(|p| p.release.is_none() && !p.abandoned)
+            .count();
+        if waiting >= running {
+            break;
+        }
+        let now = std::time::Instant::now();
+        if now >= deadline {
+            return;
+        }
+        let (g, _) = EXEC_CV
+            .wait_timeout(st, deadline - now)
+            .unwrap_or_else(|e| e.into_inner());
+        st = g;
+    }
+    st.pending.sort_by(|a, b| a.cmdline.cmp(&b.cmdline));
+    let cmdlines: Vec<String> = st
+        .pending
+        .iter()
+        .filter(|p| p.release.is_none() && !p.abandoned)
+        .map(|p| p.cmdline.clone())
+        .collect();
+    if cmdlines.is_empty() {
+        return;
+    }
+    let mut executor = st.executor.take().unwrap();
+    let release = executor.choose(&cmdlines);
+    st.executor = Some(executor);
+    match release {
+        Release::Finish {
+            index,
+            termination,
+            output,
+        } => {
+            let cmd = &cmdlines[index];
+            let p = st
+                .pending
+                .iter_mut()
+                .find(|p| p.release.is_none() && !p.abandoned && &p.cmdline == cmd)
+                .unwrap();
+            p.release = Some((termination, output));
+            EXEC_CV.notify_all();
+        }
+        Release::Abort => {
+            for p in st.pending.iter_mut() {
+                p.abandoned = true;
+            }
+            EXEC_CV.notify_all();
+            drop(st);
+            std::panic::panic_any(VerifAbort);
+        }
+    }
+}
